@@ -784,6 +784,8 @@ def tree_text(r, k):
 def tree_safe_text(k, text):
     """texts on which the model's set() answers inside its fragment (a history must stay in step)"""
     if unm_justified_codec(text): return False
+    if k == 'normalized' and len(text.encode('unicode_escape')) > 30:
+        return False      # would be wrapped by serialize(): the history protocol carries no textwrap chunks (value stream covers wrapping)
     if k in STR_CLASSES:
         t = strset_text(k, text)
         return not unm_justified_lit(t)
@@ -1030,8 +1032,6 @@ def stream_tree(I, R, r, n_hist, maxops=14):
                 if not dead:
                     snapshot()
             fid = (risky or _hist_risky(k, T, ops)) if k in LIST_CLASSES else None
-            if k == 'normalized' and any(o[0] in ('set', 'setv') and len(o[2]) > 30 for o in ops):
-                fid = 'C15-normalized-wrap'      # a text long enough to be wrapped under the longest child name
             c = Case({'op': 'tree', 'class': k, 'kind': kind, 'default': default, 'ops': ops}, impl='\n'.join(impl),
                      oracle_ok=not fails, oracle_msg='; '.join(fails[:3]), kind='tree', tags=sorted(tags), finding=fid if fails else None)
             R.add_multi(c, lines, tree_post)
